@@ -148,9 +148,8 @@ def rep_word(rep, names, w):
     s, simple = word_str(names, w)
     if simple:
         return rep[s]
-    if not w:
-        return rep[""]
-    return rep.element(s, parse_simple=False)
+    # the documented way: rep[word], multi-character generator names separated by "*"
+    return rep[s]
 
 
 def mat_json(A):
